@@ -12,12 +12,14 @@ import (
 	"io/fs"
 	"os"
 	"path/filepath"
+	"regexp"
 	"sort"
 	"sync"
 )
 
 var (
-	verifMu  sync.Mutex
+	verifFlags = regexp.MustCompile(` *flags=\([^)]*\)`)
+	verifMu    sync.Mutex
 	verifSeq int
 	verifOut *os.File
 )
@@ -72,6 +74,9 @@ func verifListing(root string) []map[string]string {
 			if b, err := os.ReadFile(p); err == nil {
 				h := sha256.Sum256(b)
 				e["h"] = hex.EncodeToString(h[:])
+				// identity of the content with every flags=(...) clause masked
+				m := sha256.Sum256(verifFlags.ReplaceAll(b, nil))
+				e["hm"] = hex.EncodeToString(m[:])
 			}
 		}
 		res = append(res, e)
